@@ -33,7 +33,18 @@ Reading (chosen so that the minimally repaired code is right; DESIGN.md "### C14
     duration_tick == ticks(onset_sec + duration_sec) - onset_tick.
   * times are dyadic (multiples of 1/64 below 64) so binary64 and float32 hold them exactly and every
     comparison below is rational equality.
+  * (round 4) "any notes ... any control stream": the numbers of the dictionaries may be of any Python / numpy number
+    type that holds the value exactly - Python int / float / bool, numpy signed and unsigned integers of every width,
+    np.float32 / np.float64 (whole seconds as ints, data bytes as uint8, float32 scalars as `from_note_array` makes
+    them).  The VALUES are what counts: every clause holds whatever the types, and a part gets the same sounding ends,
+    rows and rebuilt part as the part with the same values as plain floats (wherever the property fixes them).
+    Outside the reading: np.float16 and Fraction times (the unchanged tick conversion overflows / numpy refuses them),
+    bool *times*, float32 times whose tick image lies within 1/8 of a rounding boundary (numpy evaluates
+    1e6*ppq*t/mpq in float32 for a float32 t; `_tick_safe`), and *given ticks* (`note_on_tick`, `note_off_tick`) of
+    unsigned or narrow numpy types: "a given tick is used as it is", in the arithmetic of its own type
+    (`2880 - np.uint8(100)` raises, `1740 - np.uint16(1743)` wraps) - ticks are typed int / np.int32 / np.int64 / np.intp.
 """
+import os
 from fractions import Fraction
 
 import wire as W
@@ -41,7 +52,8 @@ from core import Eval
 
 PROPERTY = "C14"
 DRIVER = "drv_c14"
-PROPS = ["PartituraModel.Props.C14", "PartituraModel.Props.C14Dict", "PartituraModel.Props.C14Arrays"]
+PROPS = ["PartituraModel.Props.C14", "PartituraModel.Props.C14Dict", "PartituraModel.Props.C14Arrays",
+         "PartituraModel.Props.C14Types"]
 TRUSTED = [
     "numpy primitives through their documented contracts: argsort(kind='stable') returns a stable sort "
     "(Props.C14Arrays.stable_sort_unique: every list meeting the contract IS the model's sortBy), searchsorted(left) "
@@ -55,6 +67,11 @@ TRUSTED = [
     "the unstable default argsort by pitch inside note_array_from_part_list: the theorem (perf_rows_any_pitch_sort) "
     "is over every arrangement sorted by pitch; the comparison orders rows of equal (onset, pitch) by part and position",
     "Python dict semantics of PerformedNote (get with default, insertion order only decides which validator's message is seen)",
+    "numpy's typed arrays (round 4, Model/PedalTypes.lean): np.array([...]) infers an integer dtype exactly when every "
+    "element is integer-typed, a store into an integer array truncates toward zero, a float array keeps the value "
+    "(sampled against numpy, case kind npst); np.vstack / np.minimum / comparisons promote and never lose a value; "
+    "np.fromiter(dtype=float) gives a float array whatever the elements.  Not modelled: all-bool lists (bool array), "
+    "uint64 mixed with signed integers (float64), float16",
 ]
 PARTIAL = [
     "pedal down at the release with no later pedal-up event and no later re-strike: the property names no moment; "
@@ -74,7 +91,14 @@ RULE = ("random performed parts: 0-9 notes over 1-3 pitches with times from a sm
         "keys, stale or too small sound_off, ticks) given as dicts or PerformedNote objects, then 3-12 statements: "
         "threshold assignments (repeated value, raised then lowered), note[key] = value over every accepted and two "
         "unaccepted keys with valid and invalid values, appended notes; performances of 0-4 such parts (kind perf); "
-        "multi-part track renumbering cases; malformed notes; numpy contract samples (ss, asort). distinct = distinct "
+        "multi-part track renumbering cases; malformed notes; numpy contract samples (ss, asort, npst). Round 4, number "
+        "types: 55% of the parts / histories and half of the performances carry typed numbers - the three time columns "
+        "(onsets, releases, pedal times) each uniformly integer-typed (values on whole seconds, pedal changes and "
+        "re-strikes between them), float-typed (float / np.float64 / np.float32) or mixed, one type for the column or "
+        "one per element out of int, np.int8..64, np.uint8..64, np.intp, bool (0/1); pitches, velocities, tracks, "
+        "channels, control numbers / values, thresholds and given ticks as numpy / Python ints (rarely a float holding "
+        "the integer); statements note[key] = value and appended notes typed alike; track numbers of several types. "
+        "distinct = distinct "
         "request text; non-trivial = at least one note and one pedal event (part/hist cases), at least two (part, track) "
         "keys (track cases), at least two notes (perf), non-empty array (ss/asort)")
 LEVEL_TEXT = ("Lean theorems over the executable model of PerformedNote (constructor defaults, validators, __setitem__), "
@@ -82,9 +106,173 @@ LEVEL_TEXT = ("Lean theorems over the executable model of PerformedNote (constru
               "notes, note_array / from_note_array (column subsets) / Performance.note_array / sanitize_track_numbers, for "
               "all note lists, control streams, thresholds and histories (induction, no bounds); the model is tied to the "
               "code by exact differential comparison on generated inputs, and the property itself is re-checked on the "
-              "implementation's outputs by an independent reference pedal simulation.")
+              "implementation's outputs by an independent reference pedal simulation.  Round 4: the dtype of the "
+              "sounding-end array is explicit in the model (PedalTypes.soundOffsD); kinds_irrelevant proves that with the "
+              "code's dtype=float the number types of the dictionaries cannot change a sounding end, and every clause of "
+              "the oracle is evaluated on typed parts and against the same values as plain floats.")
 
 G = 64  # time grid: multiples of 1/G
+
+# ---------------------------------------------------------------------------------- number types (round 4)
+# Every number of a note / control dictionary may come as a Python int / float / bool or as a numpy scalar (the MIDI
+# loaders give Python numbers, `from_note_array` numpy float32 / int32 scalars, user code whole seconds as ints or
+# data bytes as uint8).  A case description keeps the *values* as before (JSON floats / ints: the request text of the
+# Lean model and the reference are computed from them alone) and names the type of every number separately (keys
+# `ton toff tso tp tv ttr tch tot` of a note, `tt tv tn ttr` of a control, `_ty` of a documented note dictionary, a
+# fifth element of a note[key] = value statement, `tth` for the thresholds).  `_num` builds the typed number; a type
+# that cannot hold the value exactly (or, for float32, whose tick image could round differently) falls back to the
+# plain Python number, so that every description - also a shrunk one - stays inside the compared domain.
+INT_KINDS = ["int", "i64", "i32", "i16", "i8", "u8", "u16", "u32", "u64", "ip"]
+FLOAT_KINDS = ["float", "f64", "f32"]
+TICK_KINDS = ["int", "i64", "i32", "ip"]  # a given tick is used as it is, in the arithmetic of its own type (see the reading)
+_RANGE = {"i8": (-2**7, 2**7 - 1), "i16": (-2**15, 2**15 - 1), "i32": (-2**31, 2**31 - 1), "i64": (-2**63, 2**63 - 1),
+          "ip": (-2**63, 2**63 - 1), "u8": (0, 2**8 - 1), "u16": (0, 2**16 - 1), "u32": (0, 2**32 - 1), "u64": (0, 2**64 - 1),
+          "bool": (0, 1), "npbool": (0, 1)}
+
+
+def _np_types():
+    import numpy as np
+
+    return {"i8": np.int8, "i16": np.int16, "i32": np.int32, "i64": np.int64, "ip": np.intp, "u8": np.uint8,
+            "u16": np.uint16, "u32": np.uint32, "u64": np.uint64, "f64": np.float64, "f32": np.float32,
+            "npbool": np.bool_}
+
+
+def _tick_safe(x, mpq, ppq):
+    """float32 arithmetic of 1e6*ppq*t/mpq (numpy keeps a float32 operand's precision) stays on the same side of
+    every rounding boundary: the exact value is an integer, or at least 1/8 away from k + 1/2 and below 2**17"""
+    v = Fraction(10**6 * ppq) * F(x) / mpq
+    if v.denominator == 1 and abs(v) < 2**22:
+        return True
+    return abs(v) < 2**17 and abs((v % 1) - Fraction(1, 2)) >= Fraction(1, 8)
+
+
+def _num(x, kind, tick=None):
+    """the number `x` of a description as a value of the named type"""
+    if kind is None or x is None:
+        return x
+    if kind == "int":
+        return int(x) if x == int(x) else x
+    if kind == "float":
+        return float(x)
+    if kind == "bool":
+        return bool(x) if x in (0, 1) else x
+    if kind in _RANGE:
+        lo, hi = _RANGE[kind]
+        if x != int(x):
+            return x
+        if not (lo <= int(x) <= hi):
+            return int(x)
+        return _np_types()[kind](int(x))
+    if kind == "f32":
+        if tick is not None and not _tick_safe(x, *tick):
+            return float(x)
+        import numpy as np
+
+        return np.float32(x) if float(np.float32(x)) == float(x) else float(x)
+    if kind == "f64":
+        return _np_types()["f64"](x)
+    return x
+
+
+def _int_kind(rng, x=None):
+    ks = ["int", "int", "i64", "i64", "i32", "i16", "u8", "u16", "u32", "u64", "ip", "i8"]
+    if x in (0, 1):
+        ks += ["bool"]
+    return rng.choice(ks)
+
+
+def _group_kinds(rng, xs, group):
+    """type names for the numbers `xs` of one field over the whole part: I = all integer-typed (the values must be
+    integers), F = float types, M = integer-typed where the value is an integer (mostly), f = plain"""
+    if group == "f":
+        return [None] * len(xs)
+    uni = rng.random() < 0.5
+    ik, fk = _int_kind(rng), rng.choice(FLOAT_KINDS)
+    out = []
+    for x in xs:
+        if group == "I" or (group == "M" and x == int(x) and rng.random() < 0.7):
+            out.append(ik if uni else _int_kind(rng))
+        else:
+            out.append(fk if uni else rng.choice(FLOAT_KINDS))
+    return out
+
+
+def apply_types(rng, notes, controls):
+    """round-4 generator dimension: give every number of the part a type.  The three time columns the sustain code
+    turns into arrays (onsets, releases, pedal times) are typed per column, so that a column is uniformly integer
+    typed (all-int releases with pedal changes and re-strikes between whole seconds, all-int pedal times with
+    fractional releases, ...) as often as it is mixed."""
+    import math
+
+    g_off = rng.choice(["I", "I", "I", "M", "F", "f"])
+    g_on = rng.choice(["I", "I", "M", "F", "f"])
+    g_ct = rng.choice(["I", "I", "M", "F", "f", "f"])
+    for n in notes:
+        if g_on == "I":
+            n["on"] = float(math.floor(n["on"]))
+        if g_off == "I":
+            n["off"] = float(math.ceil(n["off"]))
+    for c in controls:
+        if g_ct == "I" and c["n"] == 64:
+            c["t"] = float(round(c["t"]))
+        elif g_ct != "I" and (g_off == "I" or g_on == "I") and c["t"] == int(c["t"]) and rng.random() < 0.6:
+            c["t"] += rng.randint(1, G - 1) / G  # pedal changes between the whole seconds of the integer-typed columns
+    for key, tkey, grp in (("on", "ton", g_on), ("off", "toff", g_off)):
+        for n, k in zip(notes, _group_kinds(rng, [n[key] for n in notes], grp)):
+            if k is not None:
+                n[tkey] = k
+    ped = [c for c in controls if c["n"] == 64]
+    for c, k in zip(ped, _group_kinds(rng, [c["t"] for c in ped], g_ct)):
+        if k is not None:
+            c["tt"] = k
+    for c in controls:
+        if c["n"] != 64 and rng.random() < 0.5:
+            c["tt"] = rng.choice(FLOAT_KINDS + (INT_KINDS if c["t"] == int(c["t"]) else []))
+    # the integer-valued fields: any integer type (data bytes as uint8 / int8, numpy ints, bool for 0 and 1) and,
+    # rarely, a float holding the integer
+    def ik(x):
+        return rng.choice(["float", "f64", "f32"]) if rng.random() < 0.06 else _int_kind(rng, x)
+
+    p_int = rng.choice([0.3, 0.9])
+    for n in notes:
+        for key, tkey in (("p", "tp"), ("v", "tv"), ("tr", "ttr"), ("ch", "tch")):
+            if rng.random() < p_int:
+                n[tkey] = ik(n[key])
+        if n.get("ot") and rng.random() < 0.5:
+            n["tot"] = rng.choice(TICK_KINDS)
+        if n.get("so") is not None and rng.random() < 0.7:
+            n["tso"] = rng.choice(FLOAT_KINDS + (INT_KINDS if n["so"] == int(n["so"]) and n["off"] == int(n["off"]) else []))
+    for c in controls:
+        if rng.random() < p_int:
+            c["tv"] = ik(c["v"])
+        if rng.random() < p_int:
+            c["tn"] = _int_kind(rng)
+        if c["tr"] is not None and rng.random() < p_int:
+            c["ttr"] = _int_kind(rng, c["tr"])
+    return g_on + g_off + g_ct
+
+
+def _typed(d):
+    """has the description any typed number"""
+    if isinstance(d, dict):
+        return any(k in ("ton", "toff", "tso", "tp", "tv", "ttr", "tch", "tot", "tt", "tn", "_ty", "tth") and v
+                   or _typed(v) for k, v in d.items())
+    if isinstance(d, list):
+        return (len(d) == 5 and d[0] == "S" and d[4] is not None) or any(_typed(x) for x in d)
+    return False
+
+
+def _untyped(d):
+    """the same values as plain Python numbers"""
+    if isinstance(d, dict):
+        return {k: _untyped(v) for k, v in d.items()
+                if k not in ("ton", "toff", "tso", "tp", "tv", "ttr", "tch", "tot", "tt", "tn", "_ty", "tth")}
+    if isinstance(d, list):
+        if len(d) == 5 and d[0] == "S":
+            return d[:4]
+        return [_untyped(x) for x in d]
+    return d
 
 
 # ---------------------------------------------------------------------------------- generator
@@ -128,6 +316,8 @@ def gen_part(rng, tier, big=False):
         controls.append({"t": t, "n": num, "v": rng.choice(vals), "tr": rng.choice([None, 0, 0, 1])})
     if rng.random() < 0.3:
         controls.sort(key=lambda c: c["t"])  # a time-ordered stream, as a MIDI file gives it
+    # round 4: the number types of the dictionaries (half of the parts keep plain Python floats / ints)
+    prof = apply_types(rng, notes, controls) if rng.random() < 0.55 else None
     cvals = sorted(set(c["v"] for c in controls if c["n"] == 64))
     if tier == "quick":
         base = [0, 63, 64, 126, 127]
@@ -143,8 +333,13 @@ def gen_part(rng, tier, big=False):
     r = rng.random()
     ff = [True, True, True, True, True] if r < 0.3 else [rng.random() < 0.85, rng.random() < 0.9, rng.random() < 0.5,
                                                           rng.random() < 0.5, rng.random() < 0.5]
-    return {"k": "part", "notes": notes, "controls": controls, "thrs": thrs, "ppq": ppq, "mpq": mpq,
-            "ff": ff, "sid": rng.random() < 0.15}
+    d = {"k": "part", "notes": notes, "controls": controls, "thrs": thrs, "ppq": ppq, "mpq": mpq,
+         "ff": ff, "sid": rng.random() < 0.15}
+    if prof is not None:
+        d["prof"] = prof
+        if rng.random() < 0.5:
+            d["tth"] = [_int_kind(rng) for _ in range(rng.randint(1, 3))]  # the thresholds' types, cyclically
+    return d
 
 
 # ---- histories over note dictionaries as PerformedNote documents them
@@ -153,7 +348,51 @@ KEYS = ["id", "pitch", "midi_pitch", "note_on", "note_off", "sound_off", "veloci
 INT_KEYS = ("pitch", "midi_pitch", "velocity", "track", "channel", "note_on_tick", "note_off_tick")
 
 
-def gen_raw(rng, pool, pitches, i, style=None):
+def raw_profile(rng):
+    """round 4: how the numbers of the documented note dictionaries of one part are typed (see `apply_types`)"""
+    return {"on": rng.choice(["I", "I", "M", "F", "f"]), "off": rng.choice(["I", "I", "I", "M", "F", "f"]),
+            "uni": rng.random() < 0.5, "ik": _int_kind(rng), "fk": rng.choice(FLOAT_KINDS), "p_int": rng.choice([0.3, 0.9])}
+
+
+def type_raw(rng, d, prof):
+    import math
+
+    ty = {}
+
+    def kind(g, x):
+        if g == "f":
+            return None
+        if g == "I" or (g == "M" and x == int(x) and rng.random() < 0.7):
+            return prof["ik"] if prof["uni"] else _int_kind(rng)
+        return prof["fk"] if prof["uni"] else rng.choice(FLOAT_KINDS)
+
+    if "note_on" in d and prof["on"] == "I":
+        d["note_on"] = float(math.floor(d["note_on"]))
+    if "note_off" in d and prof["off"] == "I":
+        new = float(math.ceil(d["note_off"]))
+        if "sound_off" in d:
+            d["sound_off"] += new - d["note_off"]
+        d["note_off"] = new
+    for key, g in (("note_on", prof["on"]), ("note_off", prof["off"]), ("sound_off", rng.choice(["M", "F", "f"]))):
+        if key in d:
+            k = kind(g, d[key])
+            if k is not None:
+                ty[key] = k
+    for key in INT_KEYS:
+        if key in d and rng.random() < prof["p_int"]:
+            ty[key] = rng.choice(TICK_KINDS) if key.endswith("_tick") else (
+                rng.choice(FLOAT_KINDS) if rng.random() < 0.06 else _int_kind(rng, d[key]))
+    if ty:
+        d["_ty"] = ty
+    return d
+
+
+def gen_raw(rng, pool, pitches, i, style=None, prof=None):
+    d = _gen_raw(rng, pool, pitches, i, style)
+    return type_raw(rng, d, prof) if prof else d
+
+
+def _gen_raw(rng, pool, pitches, i, style=None):
     a, b = _time(rng, pool), _time(rng, pool)
     if rng.random() < 0.15:
         b = a
@@ -232,7 +471,8 @@ def gen_hist(rng, tier):
         pitches = pitches[:2]
     nn = rng.choice([0, 1, 2, 2, 3, 4, 5])
     style = rng.choice([None, None, "pitch", "midi"])
-    notes = [gen_raw(rng, pool, pitches, i, style) for i in range(nn)]
+    prof = raw_profile(rng) if rng.random() < 0.55 else None
+    notes = [gen_raw(rng, pool, pitches, i, style, prof) for i in range(nn)]
     controls = base["controls"]
     cvals = sorted(set(c["v"] for c in controls if c["n"] == 64))
     tb = [0, 63, 64, 126, 127] + [max(0, min(127, v + d)) for v in cvals for d in (-1, 0)]
@@ -251,14 +491,30 @@ def gen_hist(rng, tier):
             ops.append(["T", t])
             last = t
         elif r < 0.8:
-            ops.append(gen_setop(rng, pool, pitches, cnt))
+            o = gen_setop(rng, pool, pitches, cnt)
+            if prof and not isinstance(o[3], str):
+                import math
+
+                g = prof["on"] if o[2] == "note_on" else prof["off"] if o[2] == "note_off" else "M"
+                if g == "I":  # the column stays integer-typed
+                    o[3] = float(math.floor(o[3]) if o[2] == "note_on" else math.ceil(o[3]))
+                if o[2].endswith("_tick"):
+                    o.append(rng.choice(TICK_KINDS))
+                elif g == "I" or (g == "M" and o[3] == int(o[3]) and rng.random() < 0.7):
+                    o.append(prof["ik"] if prof["uni"] else _int_kind(rng, o[3]))
+                elif g != "f" and o[2] in ("note_on", "note_off", "sound_off"):
+                    o.append(prof["fk"] if prof["uni"] else rng.choice(FLOAT_KINDS))
+            ops.append(o)
         else:
-            ops.append(["A", gen_raw(rng, pool, pitches, cnt, style)])
+            ops.append(["A", gen_raw(rng, pool, pitches, cnt, style, prof)])
             cnt += 1  # (an upper bound when the note is rejected)
     if rng.random() < 0.7:
         ops.append(["T", rng.choice(tb)])
-    return {"k": "hist", "notes": notes, "controls": controls, "thr": rng.choice(tb), "ops": ops,
-            "ppq": base["ppq"], "mpq": base["mpq"], "obj": rng.random() < 0.4}
+    d = {"k": "hist", "notes": notes, "controls": controls, "thr": rng.choice(tb), "ops": ops,
+         "ppq": base["ppq"], "mpq": base["mpq"], "obj": rng.random() < 0.4}
+    if prof and rng.random() < 0.5:
+        d["tth"] = [_int_kind(rng) for _ in range(rng.randint(1, 3))]
+    return d
 
 
 def gen_perf(rng):
@@ -267,8 +523,9 @@ def gen_perf(rng):
     for i in range(nparts):
         h = gen_hist(rng, "quick")
         notes = []
+        prof = raw_profile(rng) if rng.random() < 0.5 else None
         for j in range(rng.choice([0, 1, 2, 3, 5])):
-            d = gen_raw(rng, [0.0, 0.5, 1.0, 1.5, 2.0, 3.0], [60, 60, 61, 72], j, rng.choice(["midi", "pitch"]))
+            d = gen_raw(rng, [0.0, 0.5, 1.0, 1.5, 2.0, 3.0], [60, 60, 61, 72], j, rng.choice(["midi", "pitch"]), prof)
             d["id"] = "n%d" % j  # the id tells the position (rows of equal onset and pitch are ordered by it)
             notes.append(d)
         parts.append({"notes": notes, "controls": h["controls"][:4], "thr": h["thr"], "ppq": h["ppq"], "mpq": h["mpq"],
@@ -276,7 +533,22 @@ def gen_perf(rng):
     return {"k": "perf", "parts": parts, "uid": rng.random() < 0.75}
 
 
+NPST_KINDS = ["int", "i64", "i32", "i16", "i8", "u8", "u16", "u32", "ip", "float", "f64", "f32"]
+
+
+def gen_npstore(rng):
+    """numpy contract sample (round 4): the dtype `np.array([...])` infers and what `a[0] = x` leaves in the array"""
+    n = rng.choice([1, 1, 2, 3, 5])
+    allint = rng.random() < 0.6
+    ks = [rng.choice(NPST_KINDS[:9] if allint or rng.random() < 0.6 else NPST_KINDS[9:]) for _ in range(n)]
+    signed = any(k in ("int", "i64", "i32", "i16", "i8", "ip", "float", "f64", "f32") for k in ks)
+    x = rng.randint(-8 * G if signed else 0, 8 * G) / G
+    return {"k": "npst", "a": [[float(rng.randint(0, 12)), k] for k in ks], "x": x}
+
+
 def gen_np(rng):
+    if rng.random() < 0.4:
+        return gen_npstore(rng)
     n = rng.choice([0, 1, 2, 3, 5, 8, 13, 40])
     vals = [rng.randint(0, 6) / 2 for _ in range(n)] if rng.random() < 0.7 else [rng.randint(-64, 64) / G for _ in range(n)]
     if rng.random() < 0.5:
@@ -316,6 +588,8 @@ def gen_tracks(rng):
         parts.append({"notes": [tr() for _ in range(rng.choice([0, 1, 2, 3, 5, 8]))],
                       "controls": [otr() for _ in range(rng.choice([0, 0, 1, 2, 4]))],
                       "programs": [otr() for _ in range(rng.choice([0, 0, 1, 2]))]})
+        if rng.random() < 0.4:  # round 4: the track numbers' types, cyclically (equal numbers of different types are one track)
+            parts[-1]["tt"] = [rng.choice(["int", "i64", "i32", "i16", "i8", "ip", "float", "f64"]) for _ in range(rng.randint(1, 3))]
     return {"k": "tracks", "parts": parts}
 
 
@@ -375,15 +649,17 @@ def reference(notes, controls, thr):
 # ---------------------------------------------------------------------------------- implementation side
 def _note_dicts(notes, mpq, ppq, sid=False):
     out = []
+    tk = (mpq, ppq)
     for i, n in enumerate(notes):
-        d = dict(id="x" if sid else "n%d" % i, midi_pitch=n["p"], note_on=n["on"], note_off=n["off"], velocity=n["v"],
-                 track=n["tr"], channel=n["ch"])
+        d = dict(id="x" if sid else "n%d" % i, midi_pitch=_num(n["p"], n.get("tp")), note_on=_num(n["on"], n.get("ton"), tk),
+                 note_off=_num(n["off"], n.get("toff"), tk), velocity=_num(n["v"], n.get("tv")),
+                 track=_num(n["tr"], n.get("ttr")), channel=_num(n["ch"], n.get("tch")))
         if n.get("ot"):
-            d["note_on_tick"] = ref_tick(n["on"], mpq, ppq) + 3  # a given tick is used as it is
+            d["note_on_tick"] = _num(ref_tick(n["on"], mpq, ppq) + 3, n.get("tot"))  # a given tick is used as it is
         if n.get("so") is not None:
             # a note dict copied from an earlier (pedalled) part carries a stale sounding end: building a part
             # recomputes every note, so the result must not depend on it
-            d["sound_off"] = n["off"] + n["so"]
+            d["sound_off"] = _num(n["off"] + n["so"], n.get("tso"), tk)
         out.append(d)
     return out
 
@@ -391,11 +667,28 @@ def _note_dicts(notes, mpq, ppq, sid=False):
 def _control_dicts(controls):
     out = []
     for c in controls:
-        d = dict(type="sustain_pedal" if c["n"] == 64 else "cc", number=c["n"], time=c["t"], value=c["v"], channel=1)
+        d = dict(type="sustain_pedal" if c["n"] == 64 else "cc", number=_num(c["n"], c.get("tn")), time=_num(c["t"], c.get("tt")),
+                 value=_num(c["v"], c.get("tv")), channel=1)
         if c["tr"] is not None:
-            d["track"] = c["tr"]
+            d["track"] = _num(c["tr"], c.get("ttr"))
         out.append(d)
     return out
+
+
+def _type_sig(d):
+    """the types of a case, for the distinctness key"""
+    if isinstance(d, dict):
+        return "".join("%s=%s;" % (k, v) if k in ("ton", "toff", "tso", "tp", "tv", "ttr", "tch", "tot", "tt", "tn", "_ty", "tth")
+                       else _type_sig(v) for k, v in sorted(d.items()))
+    if isinstance(d, list):
+        return "".join(_type_sig(x) for x in d) + (str(d[4]) if len(d) == 5 and d and d[0] == "S" else "")
+    return ""
+
+
+def _thr(d, j, t):
+    """the j-th threshold of a case as a number of the type the case names for it"""
+    tth = d.get("tth")
+    return _num(t, tth[j % len(tth)]) if tth else t
 
 
 def _req_notes(notes, mpq, ppq):
@@ -403,6 +696,24 @@ def _req_notes(notes, mpq, ppq):
     for n in notes:
         toks += [W.i(n["p"]), W.q(n["on"]), W.q(n["off"]), W.i(n["v"]), W.i(n["tr"]), W.i(n["ch"]),
                  W.opt(W.i, ref_tick(n["on"], mpq, ppq) + 3 if n.get("ot") else None)]
+    return " ".join(toks)
+
+
+def _kind_tok(x):
+    import numbers
+
+    return "I" if isinstance(x, numbers.Integral) else "F"
+
+
+def _req_typed(nd, cd, notes, controls, mpq, ppq):
+    """typed notes and controls for the `sot` request: values from the description, kinds from the built numbers"""
+    toks = [str(len(notes))]
+    for n, d in zip(notes, nd):
+        toks += [W.i(n["p"]), W.q(n["on"]), _kind_tok(d["note_on"]), W.q(n["off"]), _kind_tok(d["note_off"]), W.i(n["v"]),
+                 W.i(n["tr"]), W.i(n["ch"]), W.opt(W.i, ref_tick(n["on"], mpq, ppq) + 3 if n.get("ot") else None)]
+    toks.append(str(len(controls)))
+    for c, d in zip(controls, cd):
+        toks += [W.i(c["n"]), W.q(c["t"]), _kind_tok(d["time"]), W.i(c["v"]), W.opt(W.i, c["tr"])]
     return " ".join(toks)
 
 
@@ -490,9 +801,14 @@ def eval_part(d):
 
     sid = bool(d.get("sid"))
 
-    def build(thr):
+    def build(thr, j=0, plain=False):
+        if plain:  # the same values as plain Python floats / ints
+            return P.PerformedPart(_note_dicts(_untyped(notes), mpq, ppq, sid), id="P0", controls=_control_dicts(_untyped(controls)),
+                                   sustain_pedal_threshold=thr, ppq=ppq, mpq=mpq)
         return P.PerformedPart(_note_dicts(notes, mpq, ppq, sid), id="P0", controls=_control_dicts(controls),
-                               sustain_pedal_threshold=thr, ppq=ppq, mpq=mpq)
+                               sustain_pedal_threshold=_thr(d, j, thr), ppq=ppq, mpq=mpq)
+
+    typed = _typed(d)
 
     # ---- construction
     ev.requests.append("so %d %s %s" % (thr0, rn, rc))
@@ -509,6 +825,10 @@ def eval_part(d):
     if not wellformed:
         ev.oracle.append("validation: a note with onset<0, release<onset, pitch or velocity outside 0..127 was accepted")
         return ev
+    if typed:
+        # the typed model (Model/PedalTypes.lean): the kinds of the three time columns go with the values
+        ev.requests.append("sot %d %s" % (thr0, _req_typed(_note_dicts(notes, mpq, ppq, sid), _control_dicts(controls), notes, controls, mpq, ppq)))
+        ev.impl.append(_fmt_q(_sounds(pp)))
 
     def judge(snd, thr, what):
         ref = reference(notes, controls, thr)
@@ -525,13 +845,35 @@ def eval_part(d):
     ev.requests.append("rethr %d %s %s %s" % (thr0, W.lst(W.i, seq), rn, rc))
     by_thr = {thr0: _sounds(pp)}
     judge(by_thr[thr0], thr0, "construction")
+
+    # round 4: the values are what counts.  The same part with every number a plain Python float / int: wherever the
+    # property fixes the sounding end (every note but those held by a pedal that is never released) the two agree.
+    twin = None
+    if typed:
+        try:
+            twin = build(thr0, plain=True)
+        except Exception as e:
+            ev.oracle.append("total: building the part (plain numbers) raised %s: %s (thr=%d)" % (type(e).__name__, e, thr0))
+
+    def same_as_twin(snd, thr, what):
+        if twin is None:
+            return
+        for i, (a, b, (kind, _)) in enumerate(zip(snd, _sounds(twin), reference(notes, controls, thr))):
+            if kind == "eq" and a != b:
+                ev.oracle.append("types: %s thr=%d note %d sounds until %s, with the same values as plain floats until %s "
+                                 "(types: onset %s release %s)" % (what, thr, i, a, b, notes[i].get("ton"), notes[i].get("toff")))
+
+    same_as_twin(by_thr[thr0], thr0, "construction")
     hist = []
     try:
-        for t in seq:
-            pp.sustain_pedal_threshold = t
+        for j, t in enumerate(seq):
+            pp.sustain_pedal_threshold = _thr(d, j + 1, t)
             s = _sounds(pp)
             hist.append(s)
             judge(s, t, "assignment")
+            if twin is not None and j < 8:
+                twin.sustain_pedal_threshold = t
+                same_as_twin(s, t, "assignment")
             if t in by_thr and by_thr[t] != s:
                 ev.oracle.append("recompute: thr=%d gives %s now and gave %s earlier" % (t, s, by_thr[t]))
             by_thr[t] = s
@@ -543,7 +885,7 @@ def eval_part(d):
     # setting = recomputing: a fresh part with the last threshold agrees with the re-thresholded one
     if seq:
         try:
-            fresh = _sounds(build(seq[-1]))
+            fresh = _sounds(build(seq[-1], len(seq)))
             if fresh != hist[-1]:
                 ev.oracle.append("recompute: after the sequence %s the notes sound until %s, a fresh part gives %s" % (
                     seq[-3:], hist[-1], fresh))
@@ -565,6 +907,17 @@ def eval_part(d):
         ev.requests.append("rows %d %d %d %s %s" % (thr0, mpq, ppq, rn, rc))
         ev.impl.append(W.f_list(lambda r: W.f_tuple(W.f_rat(r[0]), W.f_rat(r[1]), *[W.f_int(x) for x in r[2:]]), rows))
         snd = _sounds(pp0)
+        if twin is not None:
+            twin.sustain_pedal_threshold = thr0
+            ref0_ = reference(notes, controls, thr0)
+            trows = twin.note_array()
+            for i, (r, tr_) in enumerate(zip(na, trows)):
+                for f in ("onset_sec", "onset_tick", "pitch", "velocity") + (
+                        ("duration_sec",) if i < len(ref0_) and ref0_[i][0] == "eq" else ()) + (
+                        ("duration_tick",) if i < len(snd) and snd[i] == F(notes[i]["off"]) else ()):
+                    if r[f] != tr_[f]:
+                        ev.oracle.append("types: note array row %d: %s = %s, with the same values as plain floats %s" % (
+                            i, f, r[f], tr_[f]))
         if len(rows) != len(notes):
             ev.oracle.append("rows: %d rows for %d notes" % (len(rows), len(notes)))
         for i, (r, n) in enumerate(zip(rows, notes)):
@@ -600,7 +953,7 @@ def eval_part(d):
             cols = (["onset_sec", "duration_sec"] if ff[0] else []) + ["onset_tick", "duration_tick", "pitch"] + (
                 ["velocity"] if ff[1] else []) + (["id"] if ff[2] else []) + (["track"] if ff[3] else []) + (
                 ["channel"] if ff[4] else [])
-            ev.requests.append("fnav %d %d %d %s %s %s" % (thr0, mpq, ppq, _req_raws(_note_dicts(notes, mpq, ppq, sid)), rc,
+            ev.requests.append("fnav %d %d %d %s %s %s" % (thr0, mpq, ppq, _req_raws(_note_dicts(_untyped(notes), mpq, ppq, sid)), rc,
                                                           " ".join(W.b(x) for x in ff)))
             try:
                 back = P.PerformedPart.from_note_array(na[cols])
@@ -623,6 +976,10 @@ def eval_part(d):
                 if (ff[0] and ff[1]) or not notes:
                     ev.oracle.append("from_note_array: columns %s: raised %s: %s" % (cols, type(e).__name__, e))
     except Exception as e:
+        if os.environ.get("VERIF_DEBUG"):
+            import traceback
+
+            traceback.print_exc()
         ev.oracle.append("total: note_array raised %s: %s" % (type(e).__name__, e))
 
     ref0 = reference(notes, controls, thr0)
@@ -638,7 +995,13 @@ def eval_part(d):
         "thresholds": len(set(thrs)),
     }
     if notes and nped:
-        ev.key = "%s|%s|%s|%d|%d" % (rn, rc, thrs, mpq, ppq)
+        ev.key = "%s|%s|%s|%d|%d|%s" % (rn, rc, thrs, mpq, ppq, _type_sig(d))
+    ev.info["typed"] = int(typed)
+    if typed:
+        offk = [n.get("toff") or "float" for n in notes]
+        ev.info["all_int_releases"] = int(bool(notes) and all(k in INT_KINDS or k == "bool" for k in offk))
+        ev.info["all_int_releases_extended_to_fraction"] = int(ev.info["all_int_releases"] and any(
+            s.denominator != 1 for snd in by_thr.values() for s in snd))
     return ev
 
 
@@ -649,19 +1012,26 @@ def eval_tracks(d):
     parts = d["parts"]
     pps = []
     for pi, p in enumerate(parts):
+        tt = p.get("tt")
+        cnt = [0]
+
+        def ty(t):
+            cnt[0] += 1
+            return _num(t, tt[cnt[0] % len(tt)]) if tt else t
+
         notes = [dict(id="p%dn%d" % (pi, i), midi_pitch=60, note_on=float(i), note_off=float(i) + 0.5, velocity=64,
-                      track=t, channel=1) for i, t in enumerate(p["notes"])]
+                      track=ty(t), channel=1) for i, t in enumerate(p["notes"])]
         controls = []
         for t in p["controls"]:
             c = dict(type="sustain_pedal", number=64, time=0.0, value=0, channel=1)
             if t is not None:
-                c["track"] = t
+                c["track"] = ty(t)
             controls.append(c)
         programs = []
         for t in p["programs"]:
             c = dict(time=0.0, program=1, channel=1)
             if t is not None:
-                c["track"] = t
+                c["track"] = ty(t)
             programs.append(c)
         pps.append(P.PerformedPart(notes, id="P%d" % pi, controls=controls, programs=programs))
     toks = [str(len(parts))]
@@ -710,8 +1080,15 @@ def eval_tracks(d):
     return ev
 
 
-def _mk_notes(P, raws, obj):
-    return [P.PerformedNote(dict(r)) if obj else dict(r) for r in raws]
+def _raw_dict(r, tick=None):
+    """the note dictionary of a description with its numbers in the types the description names"""
+    ty = r.get("_ty") or {}
+    return {k: _num(v, ty.get(k), tick if k in ("note_on", "note_off", "sound_off") else None) if k in ty else v
+            for k, v in r.items() if k != "_ty"}
+
+
+def _mk_notes(P, raws, obj, tick=None):
+    return [P.PerformedNote(_raw_dict(r, tick)) if obj else _raw_dict(r, tick) for r in raws]
 
 
 def _errtok(e):
@@ -783,8 +1160,8 @@ def eval_hist(d):
                                                      " ".join(toks)))
     wf = [_wellformed_raw(r) for r in raws]
     try:
-        pp = P.PerformedPart(_mk_notes(P, raws, d.get("obj")), id="P0", controls=_control_dicts(controls),
-                             sustain_pedal_threshold=thr0, ppq=ppq, mpq=mpq)
+        pp = P.PerformedPart(_mk_notes(P, raws, d.get("obj"), (mpq, ppq)), id="P0", controls=_control_dicts(controls),
+                             sustain_pedal_threshold=_thr(d, 0, thr0), ppq=ppq, mpq=mpq)
     except Exception as e:
         ev.impl.append("err")
         if all(w is True for w in wf):
@@ -797,19 +1174,20 @@ def eval_hist(d):
     v0 = _view(pp)
     steps = []
     appended = 0
-    for o in ops:
+    for oi, o in enumerate(ops):
         try:
             if o[0] == "T":
-                pp.sustain_pedal_threshold = o[1]
+                pp.sustain_pedal_threshold = _thr(d, oi + 1, o[1])
                 judged += 1 if _judge_state(ev, pp, controls, o[1], "assignment after %d appended notes" % appended, contra) else 0
             elif o[0] == "S":
-                pp.notes[o[1]][o[2]] = o[3]
+                pp.notes[o[1]][o[2]] = _num(o[3], o[4], (mpq, ppq) if o[2] in ("note_on", "note_off", "sound_off") else None) \
+                    if len(o) > 4 else o[3]
                 if o[2] == "pitch":
                     contra[o[1]] = False
             else:
                 w = _wellformed_raw(o[1])
                 try:
-                    pp.notes.append(P.PerformedNote(dict(o[1])))
+                    pp.notes.append(P.PerformedNote(_raw_dict(o[1], (mpq, ppq))))
                     appended += 1
                     contra.append(_contra(o[1]))
                     if w is None:
@@ -835,10 +1213,10 @@ def eval_hist(d):
         ev.oracle.append("total: note_array raised %s: %s" % (type(e).__name__, e))
     ev.impl.append(W.f_tuple(v0, "[" + ",".join(steps) + "]", rows))
     nped = sum(1 for c in controls if c["n"] == 64)
-    ev.info = {"hist_ops": len(ops), "hist_judged_states": judged, "hist_appended": appended,
+    ev.info = {"hist_ops": len(ops), "hist_judged_states": judged, "hist_appended": appended, "hist_typed": int(_typed(d)),
                "hist_rejected_statements": sum(1 for x in steps if not x.startswith("(ok"))}
     if pp.notes and nped:
-        ev.key = ev.requests[0]
+        ev.key = ev.requests[0] + _type_sig(d)
     return ev
 
 
@@ -863,7 +1241,8 @@ def eval_perf(d):
                 if t is not None:
                     c["track"] = t
                 progs.append(c)
-            pps.append(P.PerformedPart(_mk_notes(P, p["notes"], i % 2 == 1), id="P%d" % i, controls=_control_dicts(p["controls"]),
+            pps.append(P.PerformedPart(_mk_notes(P, p["notes"], i % 2 == 1, (p["mpq"], p["ppq"])), id="P%d" % i,
+                                       controls=_control_dicts(p["controls"]),
                                        programs=progs, sustain_pedal_threshold=p["thr"], ppq=p["ppq"], mpq=p["mpq"]))
     except Exception as e:
         ev.impl.append("err")
@@ -924,6 +1303,19 @@ def eval_np(d):
     import numpy as np
 
     ev = Eval()
+    if d["k"] == "npst":
+        a = np.array([_num(v, k) for v, k in d["a"]])
+        ev.requests.append("npstore %s %s" % (W.lst(lambda vk: _kind_tok(_num(*vk)), d["a"]), W.q(d["x"])))
+        a[0] = d["x"]
+        isint = a.dtype.kind in "iu"
+        ev.impl.append(W.f_tuple("I" if isint else "F", W.f_rat(F(a[0]))))
+        if isint != all(_kind_tok(_num(v, k)) == "I" for v, k in d["a"]):
+            ev.oracle.append("numpy: np.array of kinds %s has dtype %s" % ([k for _, k in d["a"]], a.dtype))
+        want = F(d["x"]) if not isint else Fraction(int(F(d["x"])))  # int() of a Fraction truncates toward zero
+        if F(a[0]) != want:
+            ev.oracle.append("numpy: storing %s into an array of dtype %s leaves %s" % (d["x"], a.dtype, a[0]))
+        ev.key = ev.requests[0]
+        return ev
     a = np.array(d["a"], dtype=float)
     if d["k"] == "ss":
         ev.requests.append("ssorted %s %s" % (W.lst(W.q, d["a"]), W.q(d["x"])))
@@ -949,7 +1341,7 @@ def evaluate(d):
         return eval_hist(d)
     if d["k"] == "perf":
         return eval_perf(d)
-    if d["k"] in ("ss", "asort"):
+    if d["k"] in ("ss", "asort", "npst"):
         return eval_np(d)
     return eval_part(d)
 
@@ -969,9 +1361,10 @@ def shrink(d):
                     q[f] = p[f][:j] + p[f][j + 1:]
                     yield dict(d, parts=d["parts"][:i] + [q] + d["parts"][i + 1:])
         return
-    if d["k"] in ("ss", "asort"):
+    if d["k"] in ("ss", "asort", "npst"):
         for i in range(len(d["a"])):
-            yield dict(d, a=d["a"][:i] + d["a"][i + 1:])
+            if d["k"] != "npst" or len(d["a"]) > 1:
+                yield dict(d, a=d["a"][:i] + d["a"][i + 1:])
         return
     if d["k"] == "perf":
         for i in range(len(d["parts"])):
@@ -998,7 +1391,7 @@ def shrink(d):
                 if o[0] == "S":
                     if o[1] == i:
                         continue
-                    nops.append(["S", o[1] - 1 if o[1] > i else o[1], o[2], o[3]])
+                    nops.append(["S", o[1] - 1 if o[1] > i else o[1]] + list(o[2:]))
                 else:
                     nops.append(o)
             yield dict(d, notes=d["notes"][:i] + d["notes"][i + 1:], ops=nops)
